@@ -21,7 +21,7 @@ ASSUMPTIONS = ["signals is None or JSON-able (a tariff object is documented as n
                "estimator state lives in the scheduler, which is not serialised: with SimpleRampdown only crashes before the algorithm ran are injected",
                "no torn/partial JSON files are modelled"]
 
-PROFILE = world.profile(aware_start=0.2, faults={"crash": 1.8, "mutate_crash": 0.3}, resume_modes=["rerun", "json_str", "json_buf", "json_file", "json_str", "json_buf", "json_file", "json_pathlike", "rerun"],
+PROFILE = world.profile(interrupts=0.15, aware_start=0.2, faults={"crash": 1.8, "mutate_crash": 0.3}, resume_modes=["rerun", "json_str", "json_buf", "json_file", "json_str", "json_buf", "json_file", "json_pathlike", "rerun"],
                         signals={"none": 2, "dict": 1}, estimator={"none": 3, "stub": 1, "rampdown": 2}, uninterrupted=0.4, extra_recompute=0.6,
                         custom_events=0.15,
                         party={"scripted": 4, "uncontrolled": 2, "greedy": 3, "rr": 1}, noise=0.35)
